@@ -5,7 +5,7 @@ sys.path.insert(0, os.path.join(vlib.VERIF, "tools"))
 import wiregen
 
 HARNESSES = ("wire_h",)
-MLS = ("wire",)
+MLS = ("wire", "hdrbytes")
 THEOREMS = []
 if os.path.exists(os.path.join(vlib.COQ, "Props", "C12.v")):
     THEOREMS = re.findall(r"^Theorem\s+(C12_[A-Za-z0-9_]+)", open(os.path.join(vlib.COQ, "Props", "C12.v")).read(), re.M)
@@ -76,9 +76,19 @@ def run(ctx):
             k = o.split("=")[0] + ("~" if o.endswith("=~") else "")
             meta["ops"][k] = meta["ops"].get(k, 0) + 1
         lines.append("edit %s %s" % (b.hex(), " ".join(ops)))
+    hb_cov = {}
     if ctx.get("replay"):
         import json
-        lines = [json.load(open(ctx["replay"]))["replay"]["input"]]
+        rp = json.load(open(ctx["replay"]))["replay"]
+        if rp.get("leg") in ("hdrbytes", "c12_bytes", "bytes"):
+            from props import c12_bytes
+            c12_bytes.leg(ctx, rep, rnd, tier, only=rp["input"])
+            lines = []
+        else:
+            lines = [rp["input"]]
+    else:
+        from props import c12_bytes
+        hb_cov = c12_bytes.leg(ctx, rep, rnd, tier)
     impl, icr = vlib.run_lines(info["wire_h"], lines)
     model, _ = vlib.run_lines(info["model"], lines)
     for line, err in icr:
@@ -127,7 +137,8 @@ def run(ctx):
             rep.violation("after edit `%s` (step %d) the bytes differ from the model's re-serialisation (same abstract message): %s" % (op, k, l[:200]),
                           {"input": l, "step": k, "impl": a, "model": b, "names": "correspondence wire_h/edit vs Wire.HeaderEdit.apply_edit + spec_encode_message"}, found_input=False)
     rep.coverage.update({
-        "evaluations": len(lines), "distinct_nontrivial": len(nontrivial),
+        "evaluations": len(lines) + hb_cov.get("cases", 0) + hb_cov.get("built", 0), "distinct_nontrivial": len(nontrivial),
+        "header_bytes_leg": {k: v for k, v in hb_cov.items() if not isinstance(v, (list, dict)) or len(str(v)) < 600},
         "rule": "random valid messages (either byte order, shuffled field order, unknown fields interleaved or first) x sequences of 1-12 edits: set/replace with values of every "
                 "length 0-40 and 255 (crossing every 8-byte padding boundary), delete, reply serial, container instance, strip unknown fields; bytes compared with the model after every step; "
                 "non-trivial = base message accepted and at least one edit applied",
